@@ -143,7 +143,7 @@ def h_ports(ctx, ninit, nnotes, refresh=None):
 STAT_KINDS = {'flow': 1, 'table': 3, 'port': 4, 'queue': 5, 'desc': 0, 'aggregate': 2}
 
 
-def h_ports_handshake(ctx, nearly, nlate, coalesce=False):
+def h_ports_handshake(ctx, nearly, nlate, coalesce=False, restore=False):
   """port-status notifications that arrive inside the handshake window (after the features reply, before the barrier reply) are replayed when
   the connection comes up: the port view and the PortStatus events must reflect them in arrival order, followed by the later ones"""
   from props import C09
@@ -160,6 +160,15 @@ def h_ports_handshake(ctx, nearly, nlate, coalesce=False):
   notes = []
   def note(j):
     reason = ctx.int('reason%d' % j, 0, 2); no = ctx.int('no_n%d' % j, 0, 0xffff); name = NAMES[1 + j]
+    if restore and j == nearly - 1:
+      # the last early notification gives the initially reported port back exactly the description it had in the features reply (a link
+      # that flapped, a port removed and re-added while the handshake was in progress)
+      ps = of.ofp_port_status(reason=(0 if bool(reason == 1) else reason), desc=of.ofp_phy_port(port_no=p0, name=NAMES[0], hw_addr=addrs.EthAddr(b'\x02\x00\x00\x00\x00\x01')))
+      C09.feed(con, sock, ps); notes.append(p0)
+      hit = [k for k, r in enumerate(ref) if bool(r[0] == p0)]
+      if hit: ref[hit[0]] = (p0, NAMES[0])
+      else: ref.append((p0, NAMES[0]))
+      return
     ps = of.ofp_port_status(reason=reason, desc=of.ofp_phy_port(port_no=no, name=name, hw_addr=addrs.EthAddr(bytes([2, 0, 0, 0, 1, j]))))
     C09.feed(con, sock, ps)
     notes.append(no)
@@ -286,7 +295,7 @@ def obligations(tier):
   return [
     Obligation('O1_ports', h_ports, pc, witnesses=('done', 'add', 'replace', 'delete-hit', 'delete-miss', 'refreshed'), max_decisions=20000,
                desc='PortCollection view == reference map after features reply + port-status notifications'),
-    Obligation('O4_ports_handshake', h_ports_handshake, [dict(nearly=a, nlate=b) for a, b in ((1, 0), (2, 0), (2, 1), (3, 0) if thorough else (1, 1))] + [dict(nearly=1, nlate=2, coalesce=True), dict(nearly=0, nlate=1, coalesce=True)], witnesses=('done',),
+    Obligation('O4_ports_handshake', h_ports_handshake, [dict(nearly=a, nlate=b) for a, b in ((1, 0), (2, 0), (2, 1), (3, 0) if thorough else (1, 1))] + [dict(nearly=1, nlate=2, coalesce=True), dict(nearly=0, nlate=1, coalesce=True), dict(nearly=2, nlate=0, restore=True), dict(nearly=2, nlate=1, restore=True)], witnesses=('done',),
                max_decisions=20000, desc='port-status notifications inside the handshake window are applied (and announced) in arrival order'),
     Obligation('O2_stats', h_stats, st, witnesses=('done',), max_decisions=20000,
                desc='multipart stats reassembly: one event per request, after the final part, own entries in order'),
